@@ -45,7 +45,9 @@ META = {
                "daliserver per-command connections: a pushed bus-traffic frame may arrive in the same segment "
                "as the reply of the first two transmissions (stream socket: recv(n) returns at most n bytes)",
                "ATX hat: three commands through one driver object (send-twice command acknowledged once or twice, "
-               "send-twice command, query with a symbolic answer)"],
+               "send-twice command, query with a symbolic answer)",
+               "serial: three callers - one in flight, one queued and cancelled there, one issued before the first "
+               "has finished"],
     "stubs": ["fake os / transport (harness environment)", "struct format interpreter in symbolic mode",
               "in symbolic mode every empty dict the driver object owns becomes a dict that tolerates symbolic keys"],
     "outside": ["3 or more concurrent callers", "a surplus transmit-echo report for the command in flight "
